@@ -26,6 +26,12 @@ pub fn gen_flow(
                 .iter()
                 .map(|c| match &c.node {
                     Node::Case { cond, .. } => match &cond.node {
+                        Node::ExpressionType { expr, .. }
+                            if !matches!(expr.node, Node::Id { .. } | Node::Underscore) =>
+                        {
+                            let msg = format!("Expected identifier, was {}", expr.node);
+                            Err(TypeErr::new(expr.pos, &msg))
+                        }
                         Node::ExpressionType { ty: Some(ty), .. } => TrueName::try_from(ty)
                             .map_err(|errs| errs.first().expect("At least one").clone()),
                         other => {
@@ -153,6 +159,29 @@ fn constrain_cases(
     constr: &mut ConstrBuilder,
 ) -> Constrained {
     let is_define_mode = env.is_def_mode;
+
+    // In a match, an arm that takes everything (a wildcard or a name to bind) must be the last one:
+    // the arms after it could never be taken.
+    if expr.is_some() {
+        let takes_all = |case: &AST| match &case.node {
+            Node::Case { cond, .. } => match &cond.node {
+                Node::ExpressionType { expr, ty: None, .. } => match &expr.node {
+                    Node::Id { lit } => !["None", "True", "False"].contains(&lit.as_str()),
+                    Node::Underscore => true,
+                    _ => false,
+                },
+                _ => false,
+            },
+            _ => false,
+        };
+        if let Some((_, before_last)) = cases.split_last() {
+            if let Some(case) = before_last.iter().find(|case| takes_all(case)) {
+                let msg = "This arm matches everything: the arms after it can never be taken";
+                return Err(vec![TypeErr::new(case.pos, msg)]);
+            }
+        }
+    }
+
     constr.branch_point();
 
     let mut envs = vec![];
